@@ -347,23 +347,24 @@ def run_sound_case(case):
     db = os.path.join(w["dir"], "s%d_%d.db" % (os.getpid(), w["n"]))
     os.environ.update(MTP_DB=db, MTP_K=str(case["k"]), MTP_RW=case["rw"])
     truth = {}
+    cfg_obj = w["C"].PipeConfig()      # one config object per traced program (the same one for every block of this case)
     try:
         if case.get("span_k1") is not None:
             # a generator started in one tracing block (its own, larger TypedDict limit) and finished in the next one, whose
             # settings are the case's: whatever is recorded is recorded by the second block and under ITS limit
             first = [c for c in case["calls"] if c["f"] == "g0"][:1]
             os.environ["MTP_K"] = str(case["span_k1"])
-            with monkeytype.trace(w["C"].CONFIG):
+            with monkeytype.trace(cfg_obj):
                 finishers = [begin_generator(M, rt, c, truth) for c in first]
             os.environ["MTP_K"] = str(case["k"])
-            with monkeytype.trace(w["C"].CONFIG):
+            with monkeytype.trace(cfg_obj):
                 for fin in finishers:
                     fin()
                 for call in case["calls"]:
                     if not any(call is c for c in first):
                         perform(M, rt, call, truth)
         else:
-            with monkeytype.trace(w["C"].CONFIG):
+            with monkeytype.trace(cfg_obj):
                 for call in case["calls"]:
                     perform(M, rt, call, truth)
         if case.get("backdate"):
@@ -705,7 +706,7 @@ def gen_sound(tier, seed, env_text, pid=None):
     # tightness have no verdict for it - but the limit in force binds it all the same)
     for a, ysv in () if pid != "C06" else ((dk("x", "y"), [dk("p"), dk("p", "q")]), (A("int"), [dk("p"), A("int")]), (C("list", dk("x")), [dk("x", "y", "z")]),
                    (dk("x"), [A("int"), dk("y")])):
-        for k in (0, 2):
+        for k in (0, 1):
             for extra in ([], [mk2("f0", dk("m"), A("int"))]):
                 cases.append({"type": "sound", "calls": [{"f": "g0", "args": [a], "ret": A("NoneType"), "ys": ysv}] + extra, "k": k, "rw": "NONE",
                               "flag": "", "span_k1": 5})
@@ -940,7 +941,7 @@ def run_pipeline(pid, tier, seed, run, replay_case=None):
     else:
         cases, plan = gen_sound(tier, seed, env_text, pid)
         if pid == "C06":   # the k > 0 part of the enumeration is what matters here
-            cases = [c for c in cases if c["k"] > 0 or c["tid"] % 4 == 0]
+            cases = [c for c in cases if c["k"] > 0 or c["tid"] % 4 == 0 or c.get("span_k1") is not None]
         if pid == "C05":   # tightness is stated for the inferred type before any rewriter runs
             cases = [c for c in cases if c["rw"] == "NONE" and not c["flag"]]
         if pid == "C01":
